@@ -359,8 +359,10 @@ def append (ns : NsMap) (st : St) (val : Val) (typ : Cps) : M St := do
     match val with
     | .str s => pure { st with pfx := some s.dropLast }
     | _ => throw .typeError
+  else if typ == tyCOMMENT then                                           -- :108-111 the saved prefix stays
+    pure { st with rseq := ⟨val, typ⟩ :: st.rseq }
   else do
-    let pv ← takePrefix st.pfx val typ                                    -- :90-97
+    let pv ← takePrefix st.pfx val typ                                    -- :113-120
     let st := { st with pfx := none }
     if needsNs typ pv.1 then                                              -- :100-129
       match pv.2 with
